@@ -298,6 +298,18 @@ Theorem C16_uri_to_options_reject : forall caps s dst create chain,
 Proof. exact uri_to_options_reject. Qed.
 Print Assumptions C16_uri_to_options_reject.
 
+(* coap_host_is_unix_domain (called by coap_uri_into_optlist on the length-delimited host) reads
+   only the host->length bytes of the host, for every host; with the guard "length >= 2" the
+   host "%2" would be read one byte past its end *)
+Theorem C16_host_is_unix_no_overread : forall h,
+  uri_host_is_unix_chk uri_UNIX_K h = UOk (uri_host_is_unix h).
+Proof. exact uri_host_is_unix_chk_ok. Qed.
+Print Assumptions C16_host_is_unix_no_overread.
+
+Theorem C16_host_is_unix_k2_overreads : uri_host_is_unix_chk 2 [37; 50] = UOob.
+Proof. exact uri_host_is_unix_k2_overreads. Qed.
+Print Assumptions C16_host_is_unix_k2_overreads.
+
 (* the port coap_split_uri fills in when the URI has none is the one that needs no Uri-Port *)
 Theorem C16_default_port_no_option : forall name dport ponly sch,
   In (name, dport, ponly, sch) uri_schemes -> uri_scheme_default_port sch = dport.
